@@ -573,7 +573,7 @@ impl<'a> Gen<'a> {
             3,  // run to idle
             if self.p.takeover { 2 } else { 0 },
             2, // one batch: publishes followed by a packet that ends the connection
-            if self.p.name == "c09" { 2 } else { 0 }, // fill the window, then a new QoS>0 subscription with retained matches
+            if self.p.name == "c09" { 2 } else if self.p.name == "c17" { 1 } else { 0 }, // fill the window, then a new QoS>0 subscription with retained matches
             2, // one batch: a publish matching a subscription of this client, then UNSUBSCRIBE of it
             if (self.p.name == "c03" || self.p.name == "c14") && !self.stalled { 1 } else { 0 }, // stalled consumer
         ];
@@ -637,7 +637,10 @@ impl<'a> Gen<'a> {
                     return;
                 }
                 let pk = self.pkid(i);
-                self.push(i, format!("sub {pk} - 1 {} 1", hex(b"w/#")));
+                // (C17: the window is filled through a shared subscription, whose member then
+                // holds the turn with no free slot)
+                let wf: &[u8] = if self.p.shared { b"$share/g/w/#" } else { b"w/#" };
+                self.push(i, format!("sub {pk} - 1 {} 1", hex(wf)));
                 self.signal(i);
                 // some retained messages on other topics, then the backlog
                 for t in ["r/1", "r/2", "r/3", "r/4", "r/5", "r/6", "r/7", "r/8"] {
@@ -739,6 +742,21 @@ impl<'a> Gen<'a> {
                 } else {
                     let bad = *self.rng.pick(&[0u16, 7, 101]);
                     self.push(i, format!("puback {bad}"));
+                }
+                // sometimes more packets follow the closing one in the same read: they must die
+                // with the connection (and never reach another connection's buffer)
+                if self.rng.chance(1, 2) {
+                    for _ in 0..self.rng.range(1, 3) {
+                        self.seq += 1;
+                        let pk = self.pkid(i);
+                        let t = rand_topic(&mut self.rng);
+                        let line = format!("pub 1 {pk} 0 0 {} {} - - 0", hex(t.as_bytes()), hex(format!("m{}", self.seq).as_bytes()));
+                        self.push(i, line);
+                    }
+                    if self.rng.chance(1, 2) {
+                        self.push(i, "puback 9".to_string());
+                    }
+                    self.st.tag("packets-after-the-closing-one");
                 }
                 self.signal(i);
                 self.sims[i].alive = false;
